@@ -153,6 +153,28 @@ def direct_check(tree, s, f, tname):
         fails.append(dict(signature=sig, what="formula(%r).atoms = %r, the grammar reads %r" % (s, got, exp), string=s, table=tname))
 
 
+# ---- corpus of minimised past failures and guide examples, evaluated first (direct statement only)
+import os
+_corpus = os.path.join(os.path.dirname(os.path.abspath(__file__)), "..", "..", "corpus", "C01.jsonl")
+if os.path.exists(_corpus):
+    for line in open(_corpus):
+        line = line.strip()
+        if not line:
+            continue
+        c = json.loads(line)
+        for table, tname in ((PUB, "public"), (PRIV, "private")):
+            f = attempt(formula, c["string"], table=table)
+            if c.get("reject"):
+                if not isinstance(f, Exception):
+                    fails.append(dict(signature="C01:corpus:malformed-accepted:" + c["string"], what="corpus: malformed string %r yields %s (%s)"
+                                      % (c["string"], f, c.get("why")), string=c["string"], table=tname))
+            else:
+                got = None if isinstance(f, Exception) else {a.symbol: n for a, n in f.atoms.items()}
+                if got != c["atoms"]:
+                    fails.append(dict(signature="C01:corpus:atoms:" + c["string"], what="corpus: formula(%r).atoms = %r, the grammar reads %r (%s)"
+                                      % (c["string"], got if got is not None else repr(f), c["atoms"], c.get("why")), string=c["string"], table=tname))
+    stats["corpus"] = sum(1 for l in open(_corpus) if l.strip())
+
 for i in range(ncase):
     depth = rng.randint(0, maxdepth)
     tree = gen_tree(depth)
